@@ -4,6 +4,9 @@
 mod core;
 mod gen;
 mod props;
+mod props2;
+mod props3;
+mod dom;
 mod pool;
 mod json;
 
